@@ -41,6 +41,7 @@ import (
 	"github.com/coinbase/kryptology/pkg/sharing"
 	"google.golang.org/protobuf/proto"
 
+	"github.com/obolnetwork/charon/app/log"
 	"github.com/obolnetwork/charon/dkg"
 	pb "github.com/obolnetwork/charon/dkg/dkgpb/v1"
 	"github.com/obolnetwork/charon/dkg/share"
@@ -503,6 +504,7 @@ func (c *ceremony) pkid(pk tbls.PublicKey) int {
 
 func main() {
 	a := hx.ParseArgs()
+	hx.Must(log.InitLogger(log.Config{Level: "error", Format: "console", Color: "disable"}))
 	run := hx.NewRun(a.Dir)
 	defer run.Close()
 	var cer *ceremony
@@ -662,6 +664,9 @@ func main() {
 				}
 				run.Case(fmt.Sprintf("rec:%d:%d:%s", cer.n, cer.t, f[2]))
 			} else {
+				if x, ok := cer.x[v]; ok && (rec == x || okR) {
+					run.Violate("frost:below_threshold_recovers", fmt.Sprintf("validator %d: %d < t=%d shares %v reconstruct the group key", v, len(sub), cer.t, ids))
+				}
 				run.Count("rec:below_threshold")
 			}
 			run.Count("rec")
